@@ -177,11 +177,13 @@ func c12RoundTrip(args config.Args, mode int) {
 	plain, quiet, serverless := sh.VerifFlags()
 	verifrt.Assert(plain == args.Plain && quiet == args.Quiet && serverless == args.Serverless, "output-mode options differ between client and server")
 	verifrt.Assert(g.Glob == "/var/log/x.log", "file argument differs")
-	wantMode := omode.CatClient // grep and cat both run as cat-type reads on the server
+	// grep and cat both run as cat-type reads on the server (which of the two mode
+	// constants the server uses internally is its own business); tail follows
 	if mode == 1 {
-		wantMode = omode.TailClient
+		verifrt.Assert(g.Mode == omode.TailClient, "a tail request does not run as a follow on the server")
+	} else {
+		verifrt.Assert(g.Mode == omode.CatClient || g.Mode == omode.GrepClient, "a cat/grep request runs as a follow on the server")
 	}
-	verifrt.Assert(g.Mode == wantMode, "server runs the request in another mode")
 }
 
 // VerifC12cMap: a dmap request: the query text (with n arbitrary bytes inside a
